@@ -170,7 +170,7 @@ impl Property for C34 {
         ]
     }
     fn cases(&self, tier: Tier) -> u32 {
-        tier.pick(60_000, 5_000_000)
+        tier.pick(300_000, 5_000_000)
     }
     fn strategy(&self, _tier: Tier) -> BoxedStrategy<Case> {
         (paths::components(), proptest::collection::vec(0u8..4, 1..24), proptest::collection::vec(0u8..4, 1..24), any::<bool>())
